@@ -65,10 +65,17 @@ func fmtNewPlayer(repl bool, pl *ai.MinimaxAI) string {
 	if !repl {
 		return "reuse"
 	}
-	if pl == nil || !pl.VerifHasTable() {
-		return "new tbl=nil"
+	if pl == nil {
+		return "new nil"
 	}
-	return "new tbl=" + strconv.Itoa(pl.VerifTableLen())
+	tbl := "nil"
+	if pl.VerifHasTable() {
+		tbl = strconv.Itoa(pl.VerifTableLen())
+	}
+	// the configuration the engine was really built with (after NewMinimax's normalisation), in the positive sense
+	c := pl.Cfg
+	return fmt.Sprintf("new tbl=%s cfg=d%d,sort%d,null%d,red%d,mc%d,dd%d,me%d,rw%d", tbl, c.Depth,
+		b2i(!c.NoSort), b2i(!c.NoNullMove), b2i(!c.NoReduceSlides), b2i(c.MultiCut), b2i(c.DedupSymmetry), c.MaxEvals, c.RandomizeWindow)
 }
 
 // serveExactReq: the engine answering this request never calls sortMoves (see Driver/OpsServe.lean serveExact)
@@ -312,8 +319,8 @@ func emitAnalyze(c *Ctx, bud *budget, tps string, depth int, precise bool) {
 
 func genC05serve(c *Ctx) {
 	r := c.R
-	bud := newBudget(c, 1400000, 160000000)
-	n := c.Scale(130, 60000)
+	bud := newBudget(c, 1200000, 40000000)
+	n := c.Scale(120, 6000)
 	for k := 0; k < n; k++ {
 		c.Emit(fmt.Sprintf("case C05serve-%d-%d", c.Shard, k))
 		size := 3 + r.Intn(3)
@@ -378,7 +385,7 @@ func genC05serve(c *Ctx) {
 		}
 	}
 	// threat positions on purpose: the position before a winning move, with the turn handed to the other side
-	m := c.Scale(120, 30000)
+	m := c.Scale(110, 5000)
 	tsize := 3
 	for k := 0; k < m; k++ {
 		if k%6 == 0 {
@@ -441,7 +448,7 @@ func emitServeCanon(c *Ctx, size int, words []string) string {
 
 func genC15serve(c *Ctx) {
 	r := c.R
-	n := c.Scale(900, 90000)
+	n := c.Scale(900, 30000)
 	c.Emit(fmt.Sprintf("case C15serve-%d", c.Shard))
 	for it := 0; it < n; it++ {
 		size := 3 + r.Intn(6)
